@@ -476,6 +476,26 @@ class Inliner(object):
                         break
                     if not _pure_expr(a_):
                         break
+            # ... or an entry of the dict / list / tuple display that is the statement's value, all earlier entries call-free
+            disp = getattr(s, 'value', None) if isinstance(s, (ast.Assign, ast.Return)) else None
+            if isinstance(disp, (ast.Dict, ast.List, ast.Tuple)):
+                seq = list(disp.values) if isinstance(disp, ast.Dict) else list(disp.elts)
+                keys_ok = not isinstance(disp, ast.Dict) or all(k_ is not None and _pure_expr(k_) for k_ in disp.keys)
+                for ai, a_ in enumerate(seq):
+                    hit_ = self._callee(a_, cls_stack) if keys_ok else None
+                    if hit_ and hit_[0].tail_ok and hit_[0].node is not fn and not isinstance(a_, ast.Await) and not hit_[0].is_async:
+                        self.tmp += 1
+                        nm = '_v%d' % self.tmp
+                        pre = ast.copy_location(ast.Assign(targets=[ast.Name(id=nm, ctx=ast.Store())], value=a_), s)
+                        ref = ast.copy_location(ast.Name(id=nm, ctx=ast.Load()), a_)
+                        if isinstance(disp, ast.Dict):
+                            disp.values[ai] = ref
+                        else:
+                            disp.elts[ai] = ref
+                        out.extend(self.block([pre], fn, names | {nm}, cls_stack))
+                        break
+                    if not _pure_expr(a_):
+                        break
             val = getattr(s, 'value', None) if isinstance(s, (ast.Expr, ast.Assign, ast.Return)) else None
             hit = self._callee(val, cls_stack) if val is not None else None
             if hit and not (hit[0].tail_ok or isinstance(s, ast.Return)):
